@@ -23,10 +23,10 @@ BL = "src/blobs.c"
 def run(R):
     R.assume("ns, nf >= 2 for the dense kernel; sparse input sorted row-major without duplicates (produced by the repo's own converters)")
     tus = cfront.load(R.root, files=["connectedpixels.c", "sparse_image.c", "blobs.c"])
+    if R.want("C11.R2"):
+        r2(R, tus)           # first: it reads nothing but the threshold comparisons (a violation found here is reported even when R1 cannot read the scan)
     if R.want("C11.R1"):
         r1(R, tus)
-    if R.want("C11.R2"):
-        r2(R, tus)
     if R.want("C11.R3"):
         r3(R, tus)
     if R.want("C11.R4"):
@@ -341,27 +341,77 @@ def r1(R, tus):
 
 
 # --------------------------------------------------------------------------------------------------
+def _orderings(cond, is_value, thr):
+    """truth of the C condition `cond` for the four possible orderings of (pixel value, threshold): 'gt', 'eq', 'lt' and
+    'un' (unordered: the value is NaN, every comparison but != is false).  None when the condition is not a boolean
+    combination of comparisons between the pixel value and the threshold."""
+    def ev(e, case):
+        while e.k == "cast" or e.k == "paren":
+            e = e.a[0]
+        if e.k == "un" and e.op == "!":
+            r_ = ev(e.a[0], case)
+            return None if r_ is None else (not r_)
+        if e.k == "bin" and e.op in ("&&", "||"):
+            a, b = ev(e.a[0], case), ev(e.a[1], case)
+            if a is None or b is None:
+                return None
+            return (a and b) if e.op == "&&" else (a or b)
+        if e.k == "bin" and e.op in ("<", "<=", ">", ">=", "==", "!="):
+            l_, r_ = e.a[0], e.a[1]
+            while l_.k in ("cast", "paren"):
+                l_ = l_.a[0]
+            while r_.k in ("cast", "paren"):
+                r_ = r_.a[0]
+            if is_value(l_) and estr(r_) == thr:
+                op = e.op
+            elif is_value(r_) and estr(l_) == thr:
+                op = {"<": ">", "<=": ">=", ">": "<", ">=": "<=", "==": "==", "!=": "!="}[e.op]
+            else:
+                return None
+            if case == "un":
+                return op == "!="
+            return {"gt": op in (">", ">=", "!="), "eq": op in (">=", "<=", "=="), "lt": op in ("<", "<=", "!=")}[case]
+        return None
+    out = {}
+    for case in ("gt", "eq", "lt", "un"):
+        r_ = ev(cond, case)
+        if r_ is None:
+            return None
+        out[case] = r_
+    return out
+
+
 def r2(R, tus):
-    R.rule("C11.R2", "dense, sparse and splat variants label exactly the pixels with value > threshold (strict)")
+    R.rule("C11.R2", "dense, sparse and splat variants label exactly the pixels with value > threshold: for each of the four orderings of "
+                     "(value, threshold) - above, equal, below, unordered (NaN) - only 'above' is foreground, in every variant")
+    want = {"gt": True, "eq": False, "lt": False, "un": False}
+    names = {"gt": "value > threshold", "eq": "value == threshold", "lt": "value < threshold", "un": "a NaN value"}
+
+    def report(file, fname, line, cond, fg, skip):
+        diff = [c for c in ("gt", "eq", "lt", "un") if fg[c] != want[c]]
+        R.check(not diff, "C11.R2", file, line, fname, "test %s%s" % (estr(cond), " -> continue" if skip else ""),
+                "foreground for %s: the dense variant labels a pixel only where 'data > threshold' is true, so the variants disagree about "
+                "such pixels (and the pixel is %s although it is not strictly above the threshold)"
+                % (", ".join(names[c] for c in diff) or "-", "labelled" if any(fg[c] and not want[c] for c in diff) else "dropped"))
     f = cfront.find_func(tus, "connectedpixels", CP)
     data, thr = f.params[0].name, f.params[2].name
     tests = [st.cond for st in swalk(f.body) if st.k == "if" and any(x.k == "idx" and estr(x.a[0]) == data for x in ewalk(st.cond))]
     R.shape(len(tests) >= 5, "C11.R2", CP, "connectedpixels", "the five threshold tests")
     for c in tests:
-        n = crules.rel_norm(c, True)
-        R.check(n[0] == "<" and n[1] == thr and n[2].startswith(data + "["), "C11.R2", CP, c.line, "connectedpixels", "test %s" % estr(c),
-                "a pixel is considered above threshold by a non-strict or different comparison")
+        fg = _orderings(c, lambda e: e.k == "idx" and estr(e.a[0]) == data, thr)
+        R.shape(fg is not None, "C11.R2", CP, "connectedpixels", "a threshold test that compares the pixel with the threshold (%s)" % estr(c))
+        report(CP, "connectedpixels", c.line, c, fg, False)
     for fname in ("sparse_connectedpixels", "sparse_connectedpixels_splat"):
         g = cfront.find_func(tus, fname, SP)
         v, thr = g.params[0].name, g.params[4].name
         tests = [st for st in swalk(g.body) if st.k == "if" and any(x.k == "idx" and estr(x.a[0]) == v for x in ewalk(st.cond))]
         R.shape(len(tests) >= 1, "C11.R2", SP, fname, "the threshold test")
         for st in tests:
-            n = crules.rel_norm(st.cond, True)
-            skip = st.then.k == "continue" or (st.then.k == "block" and len(st.then.body) == 1 and st.then.body[0].k == "continue")
-            ok = (n == ("<=", "%s[k]" % v, thr) and skip) or (n[0] == "<" and n[1] == thr and not skip)
-            R.check(ok, "C11.R2", SP, st.line, fname, "test %s%s" % (estr(st.cond), " -> continue" if skip else ""),
-                    "the sparse variant's threshold test is not the complement of 'v > threshold'")
+            skip = st.then.k == "continue" or (st.then.k == "block" and len(st.then.body) >= 1 and st.then.body[-1].k == "continue")
+            tv = _orderings(st.cond, lambda e: e.k == "idx" and estr(e.a[0]) == v, thr)
+            R.shape(tv is not None, "C11.R2", SP, fname, "a threshold test that compares the pixel with the threshold (%s)" % estr(st.cond))
+            fg = {c: (not tv[c]) if skip else tv[c] for c in tv}
+            report(SP, fname, st.line, st.cond, fg, skip)
 
 
 # --------------------------------------------------------------------------------------------------
@@ -439,17 +489,28 @@ def r3(R, tus):
         R.check(e_.k == "call" and e_.name == "dset_find", "C11.R3", BL, links[0].line, "dset_makeunion", "dset_link argument %s = %s" % (estr(a_), estr(e_)),
                 "dset_link is given %s, which is the parent of the label and not necessarily its root: when the label has depth 2 the "
                 "intermediate node is re-parented and the root it pointed to is cut off - one connected object gets two labels" % estr(e_))
-    # dset_link: higher points to lower
+    # dset_link: the higher root is made to point at the lower one, nothing else changes (decided on small models: every ordered pair
+    # of roots from {1, 2, 3} in a table of five identity entries)
     lk = cfront.find_func(tus, "dset_link", BL)
-    sts = crules.stores_to_param(lk, lk.params[0].name)
-    cfg = lk.cfg
-    for n, x, t in sts:
-        idx = estr(t.a[1])
-        val = estr(x.a[1])
-        g = crules.guard_set(cfg, n.id)
-        R.check(("<", val, idx) in g, "C11.R3", BL, x.line, "dset_link", "%s guarded by %s < %s" % (estr(x), val, idx),
-                "a lower id is made to point at a higher one: dset_compress (which numbers roots in increasing order and expects parents below children) breaks")
-    R.check(len(sts) == 2, "C11.R3", BL, lk.line, "dset_link", "two guarded parent stores", "dset_link changed shape")
+    R.shape(len(lk.params) == 3, "C11.R3", BL, "dset_link", "dset_link(S, a, b)")
+    Sn, an, bn = [p_.name for p_ in lk.params]
+    bad = None
+    try:
+        for a_ in (1, 2, 3):
+            for b_ in (1, 2, 3):
+                env = {Sn: [0, 1, 2, 3, 4], an: a_, bn: b_}
+                crules.run_concrete(lk, env)
+                want = [0, 1, 2, 3, 4]
+                if a_ != b_:
+                    want[max(a_, b_)] = min(a_, b_)
+                if env[Sn] != want and bad is None:
+                    bad = (a_, b_, list(env[Sn]), want)
+    except crules.NotEvaluable as ex_:
+        R.shape(False, "C11.R3", BL, "dset_link", "a body of comparisons and parent stores that can be evaluated on small tables (%s)" % ex_)
+    R.check(bad is None, "C11.R3", BL, lk.line, "dset_link", "dset_link(S, a, b): S[max(a, b)] = min(a, b) for a != b, nothing for a == b (9 models)",
+            "for roots %s and %s the table [0, 1, 2, 3, 4] becomes %s, expected %s: a lower id pointing at a higher one (or a missing / extra "
+            "store) breaks dset_compress, which numbers roots in increasing order and expects parents below children"
+            % ((bad[0], bad[1], bad[2], bad[3]) if bad else ("", "", "", "")))
     # dset_new: *v = current unconditional; growth keeps the counter in the last cell
     dn = cfront.find_func(tus, "dset_new", BL)
     grow = [s for s in swalk(dn.body) if s.k == "if" and "length" in estr(s.cond) and "current" in estr(s.cond)]
